@@ -688,7 +688,7 @@ func c20Check(c *harness.Ctx) {
 func init() {
 	harness.Register(&harness.Check{
 		Property: "C20", Level: "model_checking", NeedsConc: true, QuickS: 250, ThoroughS: 1500,
-		Rule:   "(d) the full validation grid: router id kinds, remote x local address kinds {invalid/none, v4, v6, v4-in-v6} x local AS x remote AS {0,1,65535,65536,2^32-1} x hold {0,1,2,3,90,65535} x port {-1,0,1,179,65535,65536} x passive (28 800 configurations) against the rejection predicate of the property; (a) all operation sequences up to length 5 (6 thorough) over {Add, Add with other AS, Delete, Get} x {A,B} + List in the phases never-served / serving / closed against a reference map; (b) two or three concurrent clients with 1-2 operations on colliding keys, with Serve before / concurrently / never and Close concurrently or afterwards: all schedules within the delay bound (3 quick / 4 thorough), every complete history checked for linearizability against the map model with porcupine, race detector on; (c) lifecycle scenarios in virtual time; distinct_nontrivial = judged configurations + sequences + distinct outcomes",
+		Rule:   "(d) the full validation grid: router id kinds, remote x local address kinds {invalid/none, v4, v6, v4-in-v6} x local AS x remote AS {0,1,65535,65536,2^32-1} x hold {0,1,2,3,90,65535} x port {-1,0,1,179,65535,65536} x passive (28 800 configurations) against the rejection predicate of the property; (a) all operation sequences up to length 5 (6 thorough) over {Add, Add with other AS, Delete, Get} x {A,B} + List in the phases never-served / serving / closed against a reference map; (b) two or three concurrent clients with 1-2 operations on colliding keys, with Serve before / concurrently / never and Close concurrently or afterwards: all schedules within the delay bound (3 quick / 4 thorough), every complete history checked for linearizability against the map model with porcupine, race detector on; (c) lifecycle scenarios in virtual time (delete stops dialling, re-add, passive peers never dial - also after an inbound session ended, Close before/without Serve); distinct_nontrivial = judged configurations + sequences + distinct outcomes",
 		Assume: []string{"IPv4-mapped IPv6 addresses paired with another family are not judged (property silent)", "delay-bounded schedules for (b)"},
 		Run:    c20Check,
 		Replay: func(c *harness.Ctx, raw json.RawMessage) {
